@@ -8,6 +8,7 @@ handle is built, which is what makes the conflict clauses checkable.
 """
 import collections
 import copy
+import json
 import glob as real_glob
 import os
 import shutil
@@ -170,7 +171,7 @@ class Interp:
     # ---- operations
     def exec_op(self, op):
         self.stats['ops'] += 1
-        self.trace.add('op', *[str(x) for x in op])
+        self.trace.add('op', op[0], json.dumps(op[1], sort_keys=True))
         opts = op[1]
         nest = opts.get('nest')
         trim = opts.get('trim')
